@@ -1,6 +1,6 @@
 PID = "C02"
 WORKER = "w_c02"
-HEADER = "From Coq Require Import List ZArith QArith Qcanon.\nFrom Dimod Require Import Base.Util Model.Poly Model.HPoly Model.ChkC02.\nImport ListNotations."
+HEADER = "From Coq Require Import List ZArith QArith Qcanon.\nFrom Dimod Require Import Base.Util Model.Poly Model.HPoly Model.ChkC02.\nFrom Dimod Require Model.Adj Model.SSet Model.PyBqm Gen.Gen_PyBQM.\nImport ListNotations."
 CHECK_FN = "check"
 N_QUICK = 2400
 N_THOROUGH = 60000
